@@ -1,9 +1,481 @@
+// verif-rewrite: typed source rewriter. It reads packages of the repository's
+// CURRENT working tree, replaces synchronisation constructs by scheduler
+// shims (and, optionally, map ranges by choice points), and writes the
+// rewritten files plus an overlay.json for `go build -overlay`.
+//
+// It fails loudly (exit 2) on any synchronisation construct it does not know,
+// so that a source change can never silently escape control.
 package main
 
 import (
+	"bytes"
+	"encoding/json"
+	"flag"
 	"fmt"
+	"go/ast"
+	"go/build"
+	"go/importer"
+	"go/parser"
+	"go/printer"
+	"go/token"
+	"go/types"
+	"os"
+	"path/filepath"
+	"sort"
+	"strconv"
+	"strings"
 
 	"golang.org/x/tools/go/ast/astutil"
 )
 
-func main() { fmt.Println(astutil.Apply != nil) }
+const modPath = "github.com/markkurossi/mpc"
+
+var (
+	flagRepo     = flag.String("repo", "/repo", "repository root")
+	flagOut      = flag.String("out", "", "output directory")
+	flagShims    = flag.String("shims", "/verif/harness/shim", "shim source directory")
+	flagSched    = flag.String("sched", "", "comma separated package dirs: rewrite sync, atomic, net, chan, go")
+	flagRand     = flag.String("rand", "", "comma separated package dirs: rewrite crypto/rand")
+	flagMapRange = flag.String("maprange", "", "comma separated package dirs: map ranges and Readdirnames become choice points")
+	flagExtra    = flag.String("extra", "", "comma separated dst=src pairs: extra overlay files (dst relative to repo)")
+)
+
+func die(format string, a ...interface{}) {
+	fmt.Fprintf(os.Stderr, "verif-rewrite: "+format+"\n", a...)
+	os.Exit(2)
+}
+
+type features struct{ sched, rand, maprange bool }
+
+func main() {
+	flag.Parse()
+	if *flagOut == "" {
+		die("-out required")
+	}
+	if err := os.Chdir(*flagRepo); err != nil {
+		die("%v", err)
+	}
+	pkgs := map[string]*features{}
+	add := func(list string, f func(*features)) {
+		for _, d := range strings.Split(list, ",") {
+			d = strings.TrimSpace(d)
+			if d == "" {
+				continue
+			}
+			if pkgs[d] == nil {
+				pkgs[d] = &features{}
+			}
+			f(pkgs[d])
+		}
+	}
+	add(*flagSched, func(f *features) { f.sched = true })
+	add(*flagRand, func(f *features) { f.rand = true })
+	add(*flagMapRange, func(f *features) { f.maprange = true })
+
+	overlay := map[string]string{}
+	var dirs []string
+	for d := range pkgs {
+		dirs = append(dirs, d)
+	}
+	sort.Strings(dirs)
+	sites := 0
+	for _, d := range dirs {
+		n, err := rewritePackage(d, pkgs[d], overlay)
+		if err != nil {
+			die("%s: %v", d, err)
+		}
+		sites += n
+	}
+	// shim packages
+	shimDirs, _ := os.ReadDir(*flagShims)
+	for _, sd := range shimDirs {
+		if !sd.IsDir() {
+			continue
+		}
+		files, _ := os.ReadDir(filepath.Join(*flagShims, sd.Name()))
+		for _, f := range files {
+			if !strings.HasSuffix(f.Name(), ".go") {
+				continue
+			}
+			src := filepath.Join(*flagShims, sd.Name(), f.Name())
+			dst := filepath.Join(*flagOut, "shim_"+sd.Name()+"_"+f.Name())
+			data, err := os.ReadFile(src)
+			if err != nil {
+				die("%v", err)
+			}
+			if err := os.WriteFile(dst, data, 0644); err != nil {
+				die("%v", err)
+			}
+			overlay[filepath.Join(*flagRepo, "zverif", sd.Name(), f.Name())] = dst
+		}
+	}
+	for _, pair := range strings.Split(*flagExtra, ",") {
+		if pair == "" {
+			continue
+		}
+		kv := strings.SplitN(pair, "=", 2)
+		if len(kv) != 2 {
+			die("bad -extra %q", pair)
+		}
+		overlay[filepath.Join(*flagRepo, kv[0])] = kv[1]
+	}
+	data, _ := json.MarshalIndent(map[string]interface{}{"Replace": overlay}, "", " ")
+	if err := os.WriteFile(filepath.Join(*flagOut, "overlay.json"), data, 0644); err != nil {
+		die("%v", err)
+	}
+	fmt.Fprintf(os.Stderr, "verif-rewrite: %d packages, %d rewritten sites, %d overlay files\n", len(dirs), sites, len(overlay))
+}
+
+type rewriter struct {
+	fset     *token.FileSet
+	info     *types.Info
+	feat     *features
+	pkgDir   string
+	sites    int
+	needCS   bool // file needs the csched import
+	needVmap bool
+	recv2    map[*ast.UnaryExpr]bool
+	makeChan map[*ast.CallExpr]ast.Expr
+	closeCh  map[*ast.CallExpr]bool
+	rangeK   map[*ast.RangeStmt]string // "chan" | "map"
+	readdir  map[*ast.CallExpr]bool
+	errs     []string
+	uniq     int
+}
+
+func (r *rewriter) errorf(n ast.Node, format string, a ...interface{}) {
+	r.errs = append(r.errs, fmt.Sprintf("%s: %s", r.fset.Position(n.Pos()), fmt.Sprintf(format, a...)))
+}
+
+func rewritePackage(dir string, feat *features, overlay map[string]string) (int, error) {
+	abs := filepath.Join(*flagRepo, dir)
+	bp, err := build.Default.ImportDir(abs, 0)
+	if err != nil {
+		return 0, err
+	}
+	fset := token.NewFileSet()
+	var files []*ast.File
+	var names []string
+	for _, name := range bp.GoFiles {
+		f, err := parser.ParseFile(fset, filepath.Join(abs, name), nil, parser.ParseComments)
+		if err != nil {
+			return 0, err
+		}
+		files = append(files, f)
+		names = append(names, name)
+	}
+	info := &types.Info{
+		Types: map[ast.Expr]types.TypeAndValue{},
+		Uses:  map[*ast.Ident]types.Object{},
+		Defs:  map[*ast.Ident]types.Object{},
+	}
+	var terrs []string
+	conf := types.Config{
+		Importer: importer.ForCompiler(fset, "source", nil),
+		Error:    func(err error) { terrs = append(terrs, err.Error()) },
+	}
+	pkgPath := modPath
+	if dir != "." {
+		pkgPath = modPath + "/" + dir
+	}
+	conf.Check(pkgPath, fset, files, info)
+	if len(terrs) > 0 {
+		return 0, fmt.Errorf("type errors (does the tree build?): %s", strings.Join(terrs[:min(3, len(terrs))], "; "))
+	}
+	total := 0
+	for i, f := range files {
+		r := &rewriter{fset: fset, info: info, feat: feat, pkgDir: dir,
+			recv2: map[*ast.UnaryExpr]bool{}, makeChan: map[*ast.CallExpr]ast.Expr{}, closeCh: map[*ast.CallExpr]bool{},
+			rangeK: map[*ast.RangeStmt]string{}, readdir: map[*ast.CallExpr]bool{}}
+		changed := r.rewriteFile(f)
+		if len(r.errs) > 0 {
+			return 0, fmt.Errorf("unsupported constructs:\n  %s", strings.Join(r.errs, "\n  "))
+		}
+		if !changed {
+			continue
+		}
+		// directives other than go:build cannot survive dropping comments
+		for _, cg := range f.Comments {
+			for _, c := range cg.List {
+				if strings.HasPrefix(c.Text, "//go:") && !strings.HasPrefix(c.Text, "//go:build") {
+					return 0, fmt.Errorf("%s: directive %q in a file that needs rewriting", names[i], c.Text)
+				}
+			}
+		}
+		f.Comments = nil
+		f.Doc = nil
+		var buf bytes.Buffer
+		if err := printer.Fprint(&buf, fset, f); err != nil {
+			return 0, err
+		}
+		out := filepath.Join(*flagOut, strings.ReplaceAll(dir, "/", "_")+"_"+names[i])
+		hdr := "// Code generated by verif-rewrite from " + filepath.Join(dir, names[i]) + "; DO NOT EDIT.\n\n"
+		if err := os.WriteFile(out, append([]byte(hdr), buf.Bytes()...), 0644); err != nil {
+			return 0, err
+		}
+		overlay[filepath.Join(abs, names[i])] = out
+		total += r.sites
+	}
+	return total, nil
+}
+
+func min(a, b int) int {
+	if a < b {
+		return a
+	}
+	return b
+}
+
+func sel(pkg, name string) ast.Expr {
+	return &ast.SelectorExpr{X: ast.NewIdent(pkg), Sel: ast.NewIdent(name)}
+}
+
+func (r *rewriter) isChan(e ast.Expr) bool {
+	t := r.info.TypeOf(e)
+	if t == nil {
+		return false
+	}
+	_, ok := t.Underlying().(*types.Chan)
+	return ok
+}
+
+func (r *rewriter) isMap(e ast.Expr) bool {
+	t := r.info.TypeOf(e)
+	if t == nil {
+		return false
+	}
+	_, ok := t.Underlying().(*types.Map)
+	return ok
+}
+
+func (r *rewriter) isBuiltin(id *ast.Ident, name string) bool {
+	if id.Name != name {
+		return false
+	}
+	_, ok := r.info.Uses[id].(*types.Builtin)
+	return ok
+}
+
+var importMap = map[string][2]string{
+	"sync":        {"sync", modPath + "/zverif/vsync"},
+	"sync/atomic": {"atomic", modPath + "/zverif/vatomic"},
+	"net":         {"net", modPath + "/zverif/vnet"},
+	"crypto/rand": {"rand", modPath + "/zverif/vrand"},
+}
+
+func (r *rewriter) rewriteFile(f *ast.File) bool {
+	changed := false
+	// imports
+	for _, is := range f.Imports {
+		p, _ := strconv.Unquote(is.Path.Value)
+		m, ok := importMap[p]
+		if !ok {
+			continue
+		}
+		if p == "crypto/rand" && !r.feat.rand {
+			continue
+		}
+		if p != "crypto/rand" && !r.feat.sched {
+			continue
+		}
+		if is.Name == nil {
+			is.Name = ast.NewIdent(m[0])
+		}
+		is.Path.Value = strconv.Quote(m[1])
+		is.Path.ValuePos = token.NoPos
+		changed = true
+		r.sites++
+	}
+
+	pre := func(c *astutil.Cursor) bool {
+		switch n := c.Node().(type) {
+		case *ast.SelectStmt:
+			if r.feat.sched {
+				r.errorf(n, "select statement")
+			}
+		case *ast.AssignStmt:
+			if r.feat.sched && len(n.Lhs) == 2 && len(n.Rhs) == 1 {
+				if u, ok := n.Rhs[0].(*ast.UnaryExpr); ok && u.Op == token.ARROW {
+					r.recv2[u] = true
+				}
+			}
+		case *ast.ValueSpec:
+			if r.feat.sched && len(n.Names) == 2 && len(n.Values) == 1 {
+				if u, ok := n.Values[0].(*ast.UnaryExpr); ok && u.Op == token.ARROW {
+					r.recv2[u] = true
+				}
+			}
+		case *ast.CallExpr:
+			if id, ok := n.Fun.(*ast.Ident); ok && r.feat.sched {
+				switch {
+				case r.isBuiltin(id, "make") && len(n.Args) >= 1 && r.isChan(n):
+					ct, ok := n.Args[0].(*ast.ChanType)
+					if !ok {
+						r.errorf(n, "make of a named channel type")
+					} else {
+						r.makeChan[n] = ct.Value
+					}
+				case r.isBuiltin(id, "close"):
+					r.closeCh[n] = true
+				case (r.isBuiltin(id, "len") || r.isBuiltin(id, "cap")) && len(n.Args) == 1 && r.isChan(n.Args[0]):
+					r.errorf(n, "len/cap of a channel")
+				}
+			}
+			if s, ok := n.Fun.(*ast.SelectorExpr); ok && r.feat.maprange && s.Sel.Name == "Readdirnames" {
+				r.readdir[n] = true
+			}
+		case *ast.RangeStmt:
+			if r.feat.sched && r.isChan(n.X) {
+				r.rangeK[n] = "chan"
+			} else if r.feat.maprange && r.isMap(n.X) {
+				r.rangeK[n] = "map"
+			}
+		}
+		return true
+	}
+
+	post := func(c *astutil.Cursor) bool {
+		switch n := c.Node().(type) {
+		case *ast.GoStmt:
+			if !r.feat.sched {
+				break
+			}
+			for _, a := range n.Call.Args {
+				switch a.(type) {
+				case *ast.Ident, *ast.BasicLit, *ast.SelectorExpr:
+				default:
+					r.errorf(n, "go statement with a non-trivial argument expression")
+				}
+			}
+			r.needCS = true
+			r.sites++
+			c.Replace(&ast.ExprStmt{X: &ast.CallExpr{
+				Fun: sel("csched", "Go"),
+				Args: []ast.Expr{&ast.FuncLit{
+					Type: &ast.FuncType{Params: &ast.FieldList{}},
+					Body: &ast.BlockStmt{List: []ast.Stmt{&ast.ExprStmt{X: n.Call}}},
+				}},
+			}})
+		case *ast.SendStmt:
+			if !r.feat.sched {
+				break
+			}
+			r.sites++
+			c.Replace(&ast.ExprStmt{X: &ast.CallExpr{
+				Fun:  &ast.SelectorExpr{X: n.Chan, Sel: ast.NewIdent("Send")},
+				Args: []ast.Expr{n.Value},
+			}})
+		case *ast.UnaryExpr:
+			if !r.feat.sched || n.Op != token.ARROW {
+				break
+			}
+			name := "Recv"
+			if r.recv2[n] {
+				name = "Recv2"
+			}
+			r.sites++
+			c.Replace(&ast.CallExpr{Fun: &ast.SelectorExpr{X: n.X, Sel: ast.NewIdent(name)}})
+		case *ast.CallExpr:
+			if elem, ok := r.makeChan[n]; ok {
+				var size ast.Expr = &ast.BasicLit{Kind: token.INT, Value: "0"}
+				if len(n.Args) > 1 {
+					size = n.Args[1]
+				}
+				// n.Args[0] has already been rewritten to *csched.Chan[T]; take T from the original
+				r.needCS = true
+				r.sites++
+				c.Replace(&ast.CallExpr{
+					Fun:  &ast.IndexExpr{X: sel("csched", "MakeChan"), Index: elem},
+					Args: []ast.Expr{size},
+				})
+			} else if r.closeCh[n] {
+				r.sites++
+				c.Replace(&ast.CallExpr{Fun: &ast.SelectorExpr{X: n.Args[0], Sel: ast.NewIdent("Close")}})
+			} else if r.readdir[n] {
+				r.needVmap = true
+				r.sites++
+				delete(r.readdir, n)
+				c.Replace(&ast.CallExpr{Fun: sel("vmap", "Names"), Args: []ast.Expr{n}})
+			}
+		case *ast.ChanType:
+			if !r.feat.sched {
+				break
+			}
+			r.needCS = true
+			r.sites++
+			c.Replace(&ast.StarExpr{X: &ast.IndexExpr{X: sel("csched", "Chan"), Index: n.Value}})
+		case *ast.RangeStmt:
+			switch r.rangeK[n] {
+			case "chan":
+				r.sites++
+				r.uniq++
+				ok := ast.NewIdent(fmt.Sprintf("zvOk%d", r.uniq))
+				var key ast.Expr = ast.NewIdent("_")
+				tok := token.DEFINE
+				if n.Key != nil {
+					key = n.Key
+					tok = n.Tok
+				}
+				if tok == token.ASSIGN {
+					r.errorf(n, "range over channel with = assignment")
+				}
+				recv := &ast.AssignStmt{
+					Lhs: []ast.Expr{key, ok}, Tok: token.DEFINE,
+					Rhs: []ast.Expr{&ast.CallExpr{Fun: &ast.SelectorExpr{X: n.X, Sel: ast.NewIdent("Recv2")}}},
+				}
+				brk := &ast.IfStmt{Cond: &ast.UnaryExpr{Op: token.NOT, X: ok}, Body: &ast.BlockStmt{List: []ast.Stmt{&ast.BranchStmt{Tok: token.BREAK}}}}
+				body := &ast.BlockStmt{List: append([]ast.Stmt{recv, brk}, n.Body.List...)}
+				c.Replace(&ast.ForStmt{Body: body})
+			case "map":
+				r.sites++
+				r.uniq++
+				r.needVmap = true
+				pos := r.fset.Position(n.Pos())
+				site := fmt.Sprintf("%s/%s:%d", r.pkgDir, filepath.Base(pos.Filename), pos.Line)
+				keys := &ast.CallExpr{Fun: sel("vmap", "Keys"), Args: []ast.Expr{n.X, &ast.BasicLit{Kind: token.STRING, Value: strconv.Quote(site)}}}
+				if n.Key == nil && n.Value == nil {
+					c.Replace(&ast.RangeStmt{Tok: token.ILLEGAL, X: keys, Body: n.Body})
+					break
+				}
+				if n.Tok == token.ASSIGN {
+					r.errorf(n, "range over map with = assignment")
+					break
+				}
+				kname := ast.NewIdent(fmt.Sprintf("zvKey%d", r.uniq))
+				var pre []ast.Stmt
+				present := ast.NewIdent(fmt.Sprintf("zvIn%d", r.uniq))
+				var val ast.Expr = ast.NewIdent("_")
+				if n.Value != nil {
+					val = n.Value
+				}
+				// v, present := m[k]; if !present { continue }
+				pre = append(pre, &ast.AssignStmt{Lhs: []ast.Expr{val, present}, Tok: token.DEFINE,
+					Rhs: []ast.Expr{&ast.IndexExpr{X: n.X, Index: kname}}})
+				pre = append(pre, &ast.IfStmt{Cond: &ast.UnaryExpr{Op: token.NOT, X: present},
+					Body: &ast.BlockStmt{List: []ast.Stmt{&ast.BranchStmt{Tok: token.CONTINUE}}}})
+				if n.Key != nil {
+					if id, ok := n.Key.(*ast.Ident); !ok || id.Name != "_" {
+						pre = append(pre, &ast.AssignStmt{Lhs: []ast.Expr{n.Key}, Tok: token.DEFINE, Rhs: []ast.Expr{kname}})
+						// silence "declared and not used" when the body ignores the key
+						pre = append(pre, &ast.AssignStmt{Lhs: []ast.Expr{ast.NewIdent("_")}, Tok: token.ASSIGN, Rhs: []ast.Expr{n.Key}})
+					}
+				}
+				body := &ast.BlockStmt{List: append(pre, n.Body.List...)}
+				c.Replace(&ast.RangeStmt{Key: ast.NewIdent("_"), Value: kname, Tok: token.DEFINE, X: keys, Body: body})
+			}
+		}
+		return true
+	}
+	res := astutil.Apply(f, pre, post)
+	_ = res
+	if r.sites > 0 {
+		changed = true
+	}
+	if r.needCS {
+		astutil.AddNamedImport(r.fset, f, "csched", modPath+"/zverif/csched")
+	}
+	if r.needVmap {
+		astutil.AddNamedImport(r.fset, f, "vmap", modPath+"/zverif/vmap")
+	}
+	return changed
+}
